@@ -390,3 +390,59 @@ Proof.
   - exact (chain_poll_no_panic cc l v lq H1 H2).
 Qed.
 Print Assumptions C12_lazy_chain_always_answers.
+
+(* ---------------- stacks of any height, as nested loops, on a REAL vector subscriber (ChainE2E.v) ----
+   The capstone of the three developments above: the nested poll loops of ChainView.v with the plain
+   stream of subscriber k of an ObservableVector at the bottom (FullStack.vinner), in ANY history of
+   vector operations (any capacity, so with lag and Reset; transactions; other subscribers), scripted
+   parameter values for the stages (EParam), and polls of the top.  [stackdesc] packages how the
+   stack is created from the subscription snapshot together with the proof that it starts quiet. *)
+From EB Require Import OVec OVecRun FullStack ChainE2E.
+
+Theorem C12_lazy_stack_on_a_real_subscriber :
+  forall (A : Type) capacity (evs : list (cev A)),
+    crun (cinit capacity) evs <> RPanic /\
+    forall s, crun (cinit capacity) evs = ROk s ->
+      c_ok s = true /\
+      match c_ad s with
+      | None => True
+      | Some a =>
+          exists gh, nth_error (g_gh (c_g s)) (ca_k a) = Some gh /\
+                     stages_view (ca_gs a) (gh_replica gh) (ca_view a)
+      end.
+Proof.
+  intros A capacity evs. split.
+  - exact (ce_never_panics capacity evs).
+  - exact (ce_invariant capacity evs).
+Qed.
+Print Assumptions C12_lazy_stack_on_a_real_subscriber.
+
+Theorem C12_lazy_stack_view_at_pending :
+  forall (A : Type) capacity (evs : list (cev A)) s fuel s',
+    crun (cinit capacity) evs = ROk s ->
+    cstep s (EPoll fuel) = ROk (s', CAnswer Pending) ->
+    exists a a', c_ad s = Some a /\ c_ad s' = Some a' /\ ca_k a' = ca_k a /\
+      Forall2 evolves (ca_gs a) (ca_gs a') /\ ca_view a' = ca_view a /\
+      Forall (fun cg => u_ready (sg_s (cs_stage cg)) = []) (ca_gs a') /\
+      (exists sb, nth_error (OVec.subs (g_o (c_g s'))) (ca_k a') = Some (Some sb) /\
+                  sb_waiting sb = true) /\
+      quiet_view (ca_gs a') (values (g_o (c_g s'))) (ca_view a').
+Proof. intro A. exact (@ce_view_at_pending A). Qed.
+Print Assumptions C12_lazy_stack_view_at_pending.
+
+Theorem C12_lazy_stack_poll_terminates :
+  forall (A : Type) capacity (evs : list (cev A)) s,
+    crun (cinit capacity) evs = ROk s ->
+    exists fuel, forall fuel', fuel <= fuel' -> cstep s (EPoll fuel') <> RFuel.
+Proof. intro A. exact (@ce_poll_terminates A). Qed.
+Print Assumptions C12_lazy_stack_poll_terminates.
+
+Theorem C12_lazy_loop_is_the_chain_loop :
+  forall (A : Type) (depth fuel : nat) (cc : cchain (A:=A)),
+    chain_poll depth fuel (erase cc) =
+    match chain_poll_over queue_inner depth fuel cc with
+    | ROk (cc', r, tr) => Ok (erase cc', r, tr)
+    | _ => Panic
+    end.
+Proof. intro A. exact (@chain_poll_over_queue_is_chain_poll A). Qed.
+Print Assumptions C12_lazy_loop_is_the_chain_loop.
